@@ -200,3 +200,35 @@ func (p *Pool) Put(x any) {
 	ScribbleBuffer(x)
 	p.Items = append(p.Items, x)
 }
+
+// ---------------------------------------------------------------- Map
+
+// Yield, when set by the scheduler, makes an operation that is atomic in itself
+// (a sync.Map access) a scheduling point.
+var Yield func(what string)
+
+func yield(what string) {
+	Ops++
+	if Yield != nil {
+		Yield(what)
+	}
+}
+
+// Map is sync.Map with a scheduling point before every operation, so that code
+// which starts to share state through a sync.Map is explored like the rest.
+type Map struct {
+	real realsync.Map
+}
+
+func (m *Map) Load(key any) (any, bool)    { yield("Map.Load"); return m.real.Load(key) }
+func (m *Map) Store(key, value any)        { yield("Map.Store"); m.real.Store(key, value) }
+func (m *Map) Delete(key any)              { yield("Map.Delete"); m.real.Delete(key) }
+func (m *Map) Range(f func(k, v any) bool) { yield("Map.Range"); m.real.Range(f) }
+func (m *Map) LoadAndDelete(key any) (any, bool) {
+	yield("Map.LoadAndDelete")
+	return m.real.LoadAndDelete(key)
+}
+func (m *Map) LoadOrStore(key, value any) (any, bool) {
+	yield("Map.LoadOrStore")
+	return m.real.LoadOrStore(key, value)
+}
